@@ -26,6 +26,11 @@ def ref_curve(name, el, D, tau):
         return D * max(0.0, 1.0 - el / (3 * tau))
     if name == "user_kwonly":
         return D * 0.5 ** (el / tau)
+    if name == "user_fixed_speed":
+        Da = np.asarray(D, dtype=float)
+        return np.maximum(0.0, Da - np.max(Da) / (2.0 * tau) * el)
+    if name == "user_jump":
+        return 0.6 * D * max(0.0, 1.0 - el / tau)
     raise ValueError(name)
 
 
@@ -148,7 +153,10 @@ def c08_step(tr, st, c):
     for i, (a, b, ev) in enumerate(zip(pre["trackers"], post["trackers"], tr.sim._event_tracking)):
         if a["status"] != "rebuilding":
             continue
-        fac = float(ev.event.rebuilding_factor)
+        # (the factor the caller declared, not what the event object holds)
+        decl = tr.sc["events"][i] if i < len(tr.sc["events"]) and tr.sc.get("sim", {}).get("events_order") is None else None
+        fac = float(decl["factor"]) if decl is not None and decl.get("type") == "rebuild" and decl.get("factor") is not None \
+            else float(ev.event.rebuilding_factor)
         for fld, part in (("remI", "indus"), ("remH", "house")):
             r0 = a[fld]
             r1 = b[fld]
@@ -322,7 +330,7 @@ def c10_step(tr, st, c):
             fld, d0 = ("arb", "arb0") if a["kind"] == "arbitrary" else ("dmg", "dmg0")
             D = a[d0]
             evd = tr.sc["events"][i] if i < len(tr.sc["events"]) else None
-            if evd is not None and evd.get("curve") in ("linear", "convexe", "convexe noscale", "concave", "user_swapped", "user_kwonly"):
+            if evd is not None and evd.get("curve") in ("linear", "convexe", "convexe noscale", "concave", "user_swapped", "user_kwonly", "user_fixed_speed", "user_jump"):
                 with np.errstate(all="ignore"):
                     D = ref_curve(evd["curve"], 0, a[d0], evd["recovery_tau"])     # concave with tau = 1 is 0 at once
                 D = np.where(np.isfinite(D), D, 0.0)
